@@ -1,6 +1,7 @@
 package main
 
 import (
+	"fmt"
 	"regexp"
 	"strconv"
 	"strings"
@@ -15,7 +16,7 @@ func runC04(e *env) error {
 	if e.thorough {
 		n, per = 8*e.scale, 100
 	}
-	plain := structuralBatches(e, r.Fork(1), n, per, []string{"useZeroValueOnPointerInconsistency"}, "deep-copy")
+	plain := structuralBatches(e, r.Fork(1), n, per, []string{"useZeroValueOnPointerInconsistency", "useUnderlyingTypeMethods"}, "deep-copy")
 	skip := structuralBatches(e, r.Fork(2), n, per, []string{"skipCopySameType", "skipCopySameType", "useZeroValueOnPointerInconsistency"}, "skipcopy")
 	for _, b := range append(plain, skip...) {
 		b.Share = 60
@@ -30,7 +31,7 @@ func runC04(e *env) error {
 		plain[0].Race = true
 		skip[0].Race = true
 	}
-	res, err := runK2(e, "c04", append(append(plain, skip...), skipCopyPinnedBatch(), methodLevelSkipCopyBatch()))
+	res, err := runK2(e, "c04", append(append(plain, skip...), skipCopyPinnedBatch(), methodLevelSkipCopyBatch(), namedSameUnderlyingBatch()))
 	if err != nil {
 		return err
 	}
@@ -224,3 +225,44 @@ type MlLineT struct {
 }
 
 func itoa(n int) string { return strconv.Itoa(n) }
+
+// namedSameUnderlyingBatch: two DIFFERENT named types with one underlying type (slice, map, pointer, struct) at top-level,
+// field, element and map-value positions, with and without useUnderlyingTypeMethods / skipCopySameType: the types are not
+// identical, so the value is deep-copied whatever the flags say (a plain Go conversion between them would share memory).
+func namedSameUnderlyingBatch() *k2Batch {
+	kb := &k2Batch{Tag: "named-same-underlying-pinned", Convs: map[string]string{}, ValModes: 7, Share: 60, Spec: "fragment"}
+	var types strings.Builder
+	types.WriteString("type NuIDs []int\ntype NuKeys []int\ntype NuAttrs map[string]int\ntype NuLabels map[string]int\ntype NuRef *NuNode\ntype NuLink *NuNode\ntype NuNode struct{ Name string }\n")
+	types.WriteString("type NuRows [][]string\ntype NuGrid [][]string\n")
+	pairs := [][2]string{{"NuIDs", "NuKeys"}, {"NuAttrs", "NuLabels"}, {"NuRef", "NuLink"}, {"NuRows", "NuGrid"}}
+	n := 0
+	for _, pr := range pairs {
+		for _, pos := range []string{"top", "field", "elem", "mapval", "ptr"} {
+			for _, flags := range [][]string{nil, {"useUnderlyingTypeMethods"}, {"skipCopySameType"}, {"useUnderlyingTypeMethods", "skipCopySameType"}} {
+				s, t := pr[0], pr[1]
+				switch pos {
+				case "field":
+					types.WriteString(fmt.Sprintf("type NuS%d struct {\n\tF %s\n\tG int\n}\ntype NuT%d struct {\n\tF %s\n\tG int\n}\n", n, s, n, t))
+					s, t = fmt.Sprintf("NuS%d", n), fmt.Sprintf("NuT%d", n)
+				case "elem":
+					s, t = "[]"+s, "[]"+t
+				case "mapval":
+					s, t = "map[string]"+s, "map[string]"+t
+				case "ptr":
+					s, t = "*"+s, "*"+t
+				}
+				name := fmt.Sprintf("Nu%d", n)
+				n++
+				src := "// goverter:converter\n"
+				for _, f := range flags {
+					src += "// goverter:" + f + "\n"
+				}
+				src += "type " + name + " interface {\n\tConvert(source " + s + ") " + t + "\n}\n\n"
+				kb.Convs[name] = src
+				kb.Order = append(kb.Order, name)
+			}
+		}
+	}
+	kb.Types = types.String()
+	return kb
+}
